@@ -75,6 +75,7 @@ var props = map[string]*Prop{
 		Assumptions: []string{"'required call occurs' is read as the implementation's substring match (the weaker reading)", "the JSON scanner has no tolerance setter, so only its default 0.5 is explored there"},
 		Bounds:      map[string]string{"quick": "every 5th of 864 topologies + anchors; all 4657 signature sets", "thorough": "864 topologies; all 4657 signature sets"},
 		Units: []Unit{
+			{Name: "cli-thresholds", Pkg: "internal/cli", Test: "TestVerifC08CLI", Shards: sh(16, 16), TimeoutS: sh(1800, 1800), Builds: []Build{{Pkg: "cmd/sfw", Out: "sfw"}}},
 			{Name: "alerts", Pkg: "pkg/storage/pebbledb", Test: "TestVerifC08", Shards: sh(16, 16), TimeoutS: sh(900, 3000)},
 			{Name: "signature-sets", Pkg: "pkg/storage/pebbledb", Test: "TestVerifC08Pairs", Shards: sh(16, 16), TimeoutS: sh(900, 3000)},
 		},
